@@ -157,6 +157,7 @@ RESERVED = {"task_uuid", "task_level", "timestamp", "action_type", "action_statu
 
 MSG_STYLES = ["log_message", "action.log", "Message.log", "Message.new.write", "MessageType.log", "MessageType.call.write"]
 ACT_STYLES = ["with", "ctx_finish", "run_finish", "log_call", "ActionType", "as_task", "start_task"]
+GEN_STYLES = ["gen_with", "gen_context"]  # action entered inside a plain generator that is then closed / thrown into
 TYPE_NAMES = ["app:a", "app:b", "app:c", "svc:request", "svc:db", "x"]
 SERIALIZERS = ["ident", "str", "wrap", "neg"]
 
@@ -171,7 +172,8 @@ class ProgGen(object):
 
     def __init__(self, rng, max_depth=4, max_nodes=40, value_depth=2, msg_styles=None, act_styles=None,
                  exc_pool=None, allow_remote=True, allow_tb=True, allow_typed=True, type_names=None,
-                 allow_cross=True, fail_p=0.3, remote_vias=("same", "thread")):
+                 allow_cross=True, fail_p=0.3, remote_vias=("same", "thread"), allow_reenter=False):
+        self.allow_reenter = allow_reenter
         self.rng = rng
         self.max_depth = max_depth
         self.budget = max_nodes
@@ -239,6 +241,8 @@ class ProgGen(object):
             node["decl_success"] = self.typed_decl(node["success"])
         if style in ("with", "ctx_finish", "ActionType") and rng.random() < 0.2:
             node["extra_finish"] = rng.randint(1, 3)
+        if self.allow_reenter and rng.random() < 0.35:
+            node["reenter"] = [rng.choice(["context", "run"]) for _ in range(rng.randint(1, 3))]
         node["children"] = self.body(depth + 1)
         if rng.random() < self.fail_p:
             node["outcome"] = "raise"
